@@ -15,7 +15,7 @@ RULE = ('generated dataset directories loaded by the real TemplateModel, then ge
         'permutation / unit-triangular / full integer given as whitening_mat.npy, whitening_mat_inv.npy or both, probe '
         'geometries of 1-2 columns x 2-20 rows plus irregular (tie-free) layouts with fewer AND more channels than '
         'n_closest_channels in {12 (class default), 2, 3, 0}, 1-3 shanks or no shank file, thresholds {0, 1/4, 1/2, 1} as '
-        'class attribute and as argument, explicit channel lists (array, uint32 array, Python list, empty, repeated, out of '
+        'class attribute and as argument, template_scaling absent or in {1, 2, 3}, explicit channel lists (array, uint32 array, Python list, empty, repeated, out of '
         'range), unwhiten on/off, sparse column tables with -1, all-zero and below-1e-6 columns. Corpus (the inputs of the '
         'repaired amplitude-alignment defect and one boundary case per operator) first, then a pairwise sweep of the '
         'configuration axes, then seeded random. Non-trivial = a record with at least two listed channels was returned; '
@@ -41,7 +41,7 @@ ASSUMES = ['loaded dataset state: pairwise distinct channel positions, shank vec
            'exact regime: integer templates, positions and inverse whitening matrices; threshold fractions p/2^k; sparse columns '
            'not within 0.1% of the 1e-6 signal threshold; no axis of length 1 (phylib squeezes loaded arrays)',
            'sparse column tables with entries in [-1, n_channels) and pairwise distinct entries other than -1; explicit '
-           'channel ids non-negative; template_scaling absent (= 1.0); an all-zero sparse template raises (model: None)']
+           'channel ids non-negative; template_scaling absent or a small integer; an all-zero sparse template raises (model: None)']
 TIMEOUT = {'quick': 30, 'thorough': 60}
 
 THRS = [[0, 1], [1, 4], [1, 2], [1, 1]]
@@ -180,8 +180,9 @@ def _mk(rng, **f):
         templates.append(t)
     # keep every unwhitened value exactly representable in float32
     mx = max([abs(v) for t in templates for r in t for v in r] + [1])
-    if mx * _wbound(wmi, nc) >= 2 ** 23:
-        wmi, wfiles = None, 'none'
+    scale = f.get('scale', rng.choice([None, None, None, 1, 2, 3]))
+    if mx * _wbound(wmi, nc) * (scale or 1) >= 2 ** 23:
+        wmi, wfiles, scale = None, 'none', None
     nspk = rng.randint(3, 10)
     st = [rng.randrange(nt) for _ in range(nspk)]
     st[0], st[1] = 0, nt - 1
@@ -196,7 +197,7 @@ def _mk(rng, **f):
     sem = {'nc': nc, 'ns': ns, 'nt': nt, 'templates': templates, 'cols': cols, 'wmi': wmi, 'wfiles': wfiles,
            'positions': pos, 'shanks': shanks, 'nclosest': ncl, 'thr': f.get('thr', rng.choice([[0, 1]] * 5 + THRS)),
            'tmpl_dtype': f.get('tmpl_dtype', rng.choice(['float32', 'float32', 'float64'])),
-           'cols_dtype': rng.choice(['int32', 'int64']), 'st': st, 'sc': sc,
+           'cols_dtype': rng.choice(['int32', 'int64']), 'st': st, 'sc': sc, 'scale': scale,
            'opts': {'storage': storage, 'geo': geo, 'shanks': shk, 'wmi': wkind, 'styles': styles}}
     reqs = []
     for tid in range(nt):
@@ -274,6 +275,9 @@ def _corpus():
     # unwhitening moves the peak: wmi = signed permutation
     ds = dict(base, shanks=None, wmi=[[0, 2, 0, 0], [1, 0, 0, 0], [0, 0, 0, -1], [0, 0, 4, 0]], wfiles='both')
     out.append({'ds': ds, 'reqs': [G(0), G(0, unw=False), G(1), G(0, chans=[0, 1, 2, 3], form='array')]})
+    # template_scaling multiplies the unwhitened template only
+    out.append({'ds': dict(ds, scale=2), 'reqs': [G(0), G(0, unw=False), G(1)]})
+    out.append({'ds': dict(sp, scale=3, wmi=ds['wmi'], wfiles='wmi'), 'reqs': [G(0), G(0, unw=False), G(1)]})
     # sparse: 1e-6 signal threshold (2^21 * 1e-6 = 2.097: a column of height 2 is dropped, of height 3 kept)
     sp2 = dict(sp, templates=[[[2, 3, 0, 2097152], [0, 0, 0, 0], [0, -1, 0, 5]], [[1, 1, 1, 1], [0, 2, 0, 0], [0, 0, 0, 0]]],
                cols=[[2, 0, 3, 1], [-1, 2, 1, 0]], shanks=None)
@@ -294,7 +298,7 @@ AXES = [
 
 def generate(tier, rng):
     cases = _corpus()
-    n_pair, n_rand = {'quick': (1, 110), 'thorough': (6, 2600), 'search': (1, 900)}[tier]
+    n_pair, n_rand = {'quick': (1, 300), 'thorough': (6, 2600), 'search': (1, 900)}[tier]
     for i, (a, va) in enumerate(AXES):
         for b, vb in AXES[i + 1:]:
             for x in va:
@@ -371,6 +375,8 @@ def run_case(case):
             kw['n_closest_channels'] = sem['nclosest']          # 12 = the class attribute itself
         if sem['thr'] != [0, 1]:
             kw['amplitude_threshold'] = sem['thr'][0] / sem['thr'][1]
+        if sem.get('scale') is not None:
+            kw['template_scaling'] = float(sem['scale'])        # absent = getattr default 1.0
         m = TemplateModel(**kw)
         out = []
         for rq in inp['reqs']:
@@ -430,7 +436,7 @@ def dist(case, obs):
     nc, ncl = sem['nc'], sem['nclosest']
     out = ['storage=%s' % o.get('storage'), 'geo=%s' % o.get('geo'), 'shanks=%s' % o.get('shanks'), 'wmi=%s/%s' % (o.get('wmi'), sem['wfiles']),
            'nclosest=%d' % ncl, 'channels_vs_nclosest=%s' % ('all' if ncl == 0 else 'fewer' if nc < ncl else 'equal' if nc == ncl else 'more'),
-           'default_thr=%d/%d' % tuple(sem['thr']), 'tmpl_dtype=%s' % sem['tmpl_dtype'], 'curated=%s' % (sem.get('sc') is not None),
+           'default_thr=%d/%d' % tuple(sem['thr']), 'tmpl_dtype=%s' % sem['tmpl_dtype'], 'template_scaling=%s' % sem.get('scale'), 'curated=%s' % (sem.get('sc') is not None),
            'outcome=%s' % (obs[0] if obs[0] == 'ok' else 'crash:' + str(obs[1]))]
     for rq in case['inp']['reqs']:
         if rq['k'] == 'get':
@@ -499,7 +505,7 @@ def shrink(case):
                 s['ns'] -= 1
                 s['templates'] = [[r for i, r in enumerate(t) if i != k] for t in s['templates']]
                 yield {'kind': 'get', 'inp': {'ds': s, 'reqs': [rq]}}
-        for key, val in (('wmi', None), ('shanks', None), ('sc', None), ('tmpl_dtype', 'float32'), ('thr', [0, 1])):
+        for key, val in (('wmi', None), ('shanks', None), ('sc', None), ('tmpl_dtype', 'float32'), ('thr', [0, 1]), ('scale', None)):
             if sem.get(key) != val:
                 s = copy.deepcopy(sem)
                 s[key] = val
